@@ -1000,6 +1000,45 @@ func genC09(r *Runner) {
 	}
 	c09CatalogueChains(r)
 	c09SerialLengths(r)
+	c09RevocationBehaviours(r)
+}
+
+// c09RevocationBehaviours: every authentic answer the revocation generators know — each OCSP answer class, each CRL shape
+// (with and without delta entries), the entry combinations of C10, each behind the other source too — run for one thing: the call
+// returns (correctly signed replies are what byte mutation cannot produce)
+func c09RevocationBehaviours(r *Runner) {
+	var cases []chainCase
+	for _, b := range ocspAlphabet {
+		for _, mode := range []string{"full", "ocsp"} {
+			c := one(ocspLevel(0, []string{b}), 1, "c09:"+b)
+			c.mode = mode
+			cases = append(cases, c)
+		}
+		l := levelSpec{ocspURLs: urlsN(ocspURL, 0, 1), ocspBeh: []string{b}, crlURLs: urlsN(crlURL, 0, 1), crlBeh: []string{"many-entries-delta-lists-cert"}}
+		cases = append(cases, one(l, 2, "c09:"+b+"+crl"))
+	}
+	for _, b := range crlAlphabet {
+		for _, fresh := range []bool{false, true} {
+			l := crlLevel(0, []string{b})
+			l.freshest = fresh
+			cases = append(cases, one(l, 2, "c09:"+b))
+		}
+	}
+	// entries: the certificate listed in the base with each reason / a critical extension, next to a delta that has entries
+	for _, reason := range []int{-1, 0, 1, 6, 8, 10} {
+		for _, crit := range []bool{false, true} {
+			for _, dl := range [][]entryAbs{nil, {{false, 1, 1, "none", false, ""}}, {{true, 8, 2, "none", false, ""}}, {{true, 6, 2, "after", true, ""}, {false, 1, 1, "none", false, ""}}} {
+				cases = append(cases, entriesCase("c09:entries", []entryAbs{{true, reason, 0, "none", crit, ""}, {false, 1, 1, "none", false, ""}}, dl, dl != nil, false))
+			}
+		}
+	}
+	chainPanicOnly = true
+	chainPanicOnlyCount.Store(0)
+	runChainCases(r, cases)
+	chainPanicOnly = false
+	sumc := &Case{ID: "revocation-behaviours", K: "total", In: map[string]any{"target": "revocation-behaviour", "cases": len(cases)}, Impl: map[string]any{"outcome": "terminated"}, Class: "revocation-behaviour"}
+	sumc.local, sumc.weight = true, len(cases)
+	r.Submit(sumc)
 }
 
 // c09CatalogueChains: every chain of the C03 / C14 catalogue (each deviation at each position, both purposes, lengths 1..4),
